@@ -406,7 +406,9 @@ fn sweep_ops(total_payload: usize, variant: usize) -> Vec<Value> {
 
 pub struct C13;
 impl C13 {
-    fn check_digest(&self, ops: &[Value], ctx: &mut Ctx, out: &mut Outcome) -> Result<(), String> {
+    /// Ok(0): judged against the tapped byte stream; Ok(1): stream not observable, digest explained by the documented
+    /// encoding; Ok(2): neither
+    fn check_digest(&self, ops: &[Value], ctx: &mut Ctx, out: &mut Outcome) -> Result<u8, String> {
         let resp = node_case(ctx, None, vec![json!({"q":"digest","ops":ops})])?;
         let r = &resp["results"][0];
         out.evals += 1;
@@ -415,8 +417,9 @@ impl C13 {
         }
         if let Some(t) = r.get("threw") {
             out.mismatch(ctx, "digest_threw", format!("Hash256Writer threw: {}", t), json!({"ops": ops}));
-            return Ok(());
+            return Ok(0);
         }
+        let mut status = 0u8;
         let tap_complete = r["tapComplete"] == json!(true);
         if tap_complete {
             if r["got"] != r["want"] {
@@ -431,9 +434,11 @@ impl C13 {
             // the byte stream is not observable any more (the writer no longer funnels through one method), but the
             // digest is the SHA-256 of the documented encoding of what was written
             out.label("digest_explained_by_reference_encoding");
+            status = 1;
         } else {
             // neither observable nor the documented encoding: nothing to compare with (an implementation may change both)
             out.label("digest_unobservable");
+            status = 2;
         }
         if r["insensitive"].as_array().map(|a| !a.is_empty()).unwrap_or(false) {
             out.mismatch(
@@ -445,7 +450,7 @@ impl C13 {
         }
         let bytes = r["bytes"].as_u64().unwrap_or(0);
         out.label(format!("digest_len_mod64:{}", if bytes % 64 >= 55 { "padding_boundary" } else { "plain" }));
-        Ok(())
+        Ok(status)
     }
 }
 
@@ -477,16 +482,38 @@ impl Check for C13 {
     fn deterministic(&self, ctx: &mut Ctx, _tier: Tier) -> Vec<Outcome> {
         let mut out = Outcome::default();
         out.label("digest_sweep_0_300");
+        // per variant: how each length was judged (see check_digest)
+        let mut status: Vec<Vec<u8>> = vec![vec![]; 12];
         for len in 0..=300usize {
             for variant in 0..12 {
                 let ops = sweep_ops(len, variant);
-                if let Err(e) = self.check_digest(&ops, ctx, &mut out) {
-                    return vec![Outcome::infra(e)];
+                match self.check_digest(&ops, ctx, &mut out) {
+                    Err(e) => return vec![Outcome::infra(e)],
+                    Ok(st) => status[variant].push(st),
                 }
                 if out.violation.is_some() {
                     out.sample = Some(serde_json::to_value(C13Case::Digest { ops }).unwrap());
                     return vec![out];
                 }
+            }
+        }
+        // When the byte stream cannot be tapped, a digest that is not the SHA-256 of the documented encoding may belong to
+        // a changed encoding - but an encoding is one function of what is written: it cannot agree with the documented one
+        // for payloads of n-1 and n+1 bytes of the same shape and differ at n.  A few isolated lengths that are not
+        // explained, between neighbours that are, are a digest routine that breaks at particular stream lengths.
+        for (variant, st) in status.iter().enumerate() {
+            let isolated: Vec<usize> = (1..st.len().saturating_sub(1)).filter(|&i| st[i] == 2 && st[i - 1] == 1 && st[i + 1] == 1).collect();
+            let unexplained = st.iter().filter(|x| **x == 2).count();
+            if !isolated.is_empty() && unexplained * 20 <= st.len() {
+                let ops = sweep_ops(isolated[0], variant);
+                out.mismatch(
+                    ctx,
+                    "digest_breaks_at_particular_lengths",
+                    format!("digestHex() is the SHA-256 of the documented encoding for payloads of {} and {} bytes but not for {} bytes (same writes otherwise; {} such lengths in 0..=300)", isolated[0] - 1, isolated[0] + 1, isolated[0], isolated.len()),
+                    json!({"ops": ops, "variant": variant, "lengths": isolated}),
+                );
+                out.sample = Some(serde_json::to_value(C13Case::Digest { ops }).unwrap());
+                return vec![out];
             }
         }
         out.nontrivial = Some(fp(&"digest_sweep_0_300"));
